@@ -637,6 +637,18 @@ def unit_rewrites(ud, rel, s, rw):
             s = rw.literal('T8', s, 'Decimal::MAX', 'dec_c_max()')
             s = rw.literal('T8', s, 'Decimal::MIN', 'dec_c_min()')
             s = t15_assign_ops(s, rw)
+        if stack in ('f64', 'number') and part == 'ast':
+            # T20..T23: IEEE primitives Verus has no encoding for are outlined to helpers whose *bodies are the original
+            # primitive* and whose contract is an uninterpreted function of the operands (f64_header.vinc)
+            s = t20_float_neg(s, rw)
+            for name, fn in (('f64::NEG_INFINITY', 'c_neg_inf()'), ('f64::INFINITY', 'c_inf()'), ('f64::NAN', 'c_nan()'),
+                             ('std::f64::consts::PI', 'c_pi()'), ('std::f64::consts::E', 'c_e()')):
+                s = rw.literal('T8', s, name, fn)
+            if stack == 'f64':
+                s = rw.regex('T22', s, r'\b(\w+) as usize\b', r'verif_to_usize(\1)')
+            s = t22_cast_to_f64(s, rw)
+            s = rw.regex('T12', s, r'(\w+)\.iter\(\)\.any\(\|(\w+)\| \2\.is_nan\(\)\)', r'verif_any_nan(&\1)')
+            s = t15_assign_ops(s, rw, ops='-+*/')
         # T13: `for x in A..=(E) {` -> `for x in A..((E) + 1) {`  (no iterator spec for RangeInclusive in vstd;
         # equivalent whenever E + 1 does not overflow, which Verus then has to prove)
         s = rw.regex('T13', s, r'for (\w+) in (\w+)\.\.=\((.+?)\) \{', r'for \1 in \2..((\3) + 1) {')
@@ -663,11 +675,112 @@ def t16_from_str(s, rw):
     return ''.join(out)
 
 
-def t15_assign_ops(s, rw):
+def t20_float_neg(s, rw):
+    """T20.  Verus has no encoding of unary minus on floats: `-E` in prefix position, E not an integer literal, becomes
+    `verif_fneg(E)` (helper body: `-x`).  E is the primary expression after the sign with its postfix chain
+    (`.m(..)`, `?`, `[..]`, calls) - the operand Rust's grammar gives to a unary minus.  A minus that was in fact an
+    integer negation makes the generated file ill-typed (exit 2), never a wrong proof."""
+    mask = rsrc.code_mask(s)
     out = []
     i = 0
     n = 0
-    for m in re.finditer(r'(?m)^(\s*)(\w+) ([-+*])= ', s):
+    for m in re.finditer(r'-', s):
+        p = m.start()
+        if p < i or not mask[p]:
+            continue
+        if s[p + 1:p + 2] in ('=', '>'):
+            continue
+        # prefix position: the previous code character is an opener / operator / separator, or the keyword `return`
+        j = p - 1
+        while j >= 0 and s[j] in ' \t\n':
+            j -= 1
+        if j >= 0 and not (s[j] in '(,=+-*/%<>!&|{;[' or s[:j + 1].endswith('return')):
+            continue
+        k = p + 1
+        if k >= len(s) or s[k] in ' \t\n':
+            continue
+        # primary
+        if s[k] == '(':
+            e = rsrc.match_close(s, k) + 1
+        else:
+            mm = re.match(r'(\d[\d_]*(\.[\d_]+)?([eE][-+]?\d+)?(_?f64)?)|([A-Za-z_][\w:]*)', s[k:])
+            if not mm:
+                continue
+            if mm.group(1) and not (mm.group(2) or mm.group(3) or mm.group(4)):
+                continue                      # integer literal: a plain integer negation
+            e = k + mm.end()
+        # postfix chain
+        while e < len(s):
+            if s[e] == '?':
+                e += 1
+            elif s[e] in '([':
+                e = rsrc.match_close(s, e) + 1
+            elif s[e] == '.' and re.match(r'\.[A-Za-z_]', s[e:e + 2]):
+                e += 1 + re.match(r'\w+', s[e + 1:]).end()
+            else:
+                break
+        out.append(s[i:p])
+        out.append('verif_fneg(' + s[k:e] + ')')
+        i = e
+        n += 1
+    out.append(s[i:])
+    rw.count('T20', n)
+    return ''.join(out)
+
+
+def t22_cast_to_f64(s, rw):
+    """T22.  `E as f64` (E: the unary operand of the cast - a bracketed group, path or method chain) -> `verif_to_f64(E)`:
+    Verus gives integer -> float casts no meaning.  The helper is generic over the source type (trait VerifToF64 in
+    f64_header.vinc; each impl's body is `self as f64`)."""
+    mask = rsrc.code_mask(s)
+    out = []
+    pos = 0
+    n = 0
+    for m in re.finditer(r' as f64\b', s):
+        if not mask[m.start()] or m.start() < pos:
+            continue
+        e = m.start()
+        b = e
+        while b > pos:
+            c = s[b - 1]
+            if c in ')]':
+                depth = 0
+                j = b - 1
+                while j >= pos:
+                    if s[j] in ')]':
+                        depth += 1
+                    elif s[j] in '([':
+                        depth -= 1
+                        if depth == 0:
+                            break
+                    j -= 1
+                if j < pos:
+                    raise LostAnchor("T22: unbalanced cast operand")
+                b = j
+            elif c.isalnum() or c in '_:':
+                b -= 1
+            elif c == '.' and b - 2 >= 0 and (s[b - 2].isalnum() or s[b - 2] in '_)]'):
+                b -= 1
+            elif c == '?':
+                b -= 1
+            else:
+                break
+        if b == e:
+            raise LostAnchor("T22: cast without operand")
+        out.append(s[pos:b])
+        out.append('verif_to_f64(' + s[b:e] + ')')
+        pos = m.end()
+        n += 1
+    out.append(s[pos:])
+    rw.count('T22', n)
+    return ''.join(out)
+
+
+def t15_assign_ops(s, rw, ops='-+*'):
+    out = []
+    i = 0
+    n = 0
+    for m in re.finditer(r'(?m)^(\s*)(\w+) ([' + ops + r'])= ', s):
         if m.start() < i:
             continue
         # the statement ends at the first `;` at bracket depth 0
